@@ -246,3 +246,40 @@ Proof.
     + intros [i [E Hi]]. apply In_zrange in Hi. exists i. split; [lia|congruence].
     + intros [i [Hi E]]. exists i. split; [congruence|]. apply In_zrange. lia.
 Qed.
+
+(* ------------------------------------------------------------------ chunked partitions *)
+Lemma chunks_chain_from n k : 0 <= n -> 0 < k -> forall d j,
+  0 <= j <= k -> Z.to_nat (k - j) = d -> chain (n * j / k) n (map (chunk n k) (zrange j k)).
+Proof.
+  intros Hn Hk. induction d as [|d IH]; intros j Hj Hd.
+  - assert (j = k) by lia. subst j. rewrite zrange_nil by lia. cbn. apply Z.div_mul. lia.
+  - rewrite zrange_cons by lia. cbn [map chain]. unfold chunk at 1. split; [reflexivity|]. apply IH; lia.
+Qed.
+
+Lemma chunks_chain n k : 0 <= n -> 0 < k -> chain 0 n (chunks n k).
+Proof.
+  intros Hn Hk. unfold chunks. pose proof (chunks_chain_from n k Hn Hk _ 0 ltac:(lia) eq_refl) as H.
+  replace (n * 0 / k) with 0 in H; [exact H|]. rewrite Z.mul_0_r. symmetry. apply Z.div_0_l. lia.
+Qed.
+
+Lemma chunks_each n k : 0 <= n -> 0 < k -> Forall (fun q => 0 <= fst q /\ fst q <= snd q /\ snd q <= n) (chunks n k).
+Proof.
+  intros Hn Hk. unfold chunks. apply Forall_forall. intros q Hq. apply in_map_iff in Hq. destruct Hq as [c [<- Hc]].
+  apply In_zrange in Hc. unfold chunk. cbn [fst snd].
+  assert (A : n * c <= n * (c + 1)) by nia.
+  split; [apply Z.div_pos; nia|]. split; [apply Z.div_le_mono; lia|].
+  apply Z.div_le_upper_bound; [lia|]. nia.
+Qed.
+
+Lemma chunks_cover n k : 0 <= n -> 0 < k -> flat_map idx (chunks n k) = zrange 0 n.
+Proof.
+  intros Hn Hk. apply chain_flat; [apply chunks_chain; assumption|].
+  eapply Forall_impl; [|apply chunks_each; assumption]. cbn. intros q H. lia.
+Qed.
+
+(* the product evaluated in a 32-bit unsigned index: 3*10^8 indices in 64 chunks (16 threads x 4), chunk 15 starts at
+   (4.5*10^9 mod 2^32)/64 = 3203636 instead of 70312500 *)
+Lemma chunk_wrap_witness :
+  m_chunk U32 300000000 64 15 = (3203636, 7891136) /\ chunk 300000000 64 15 = (70312500, 75000000) /\
+  m_chunk U32 300000000 64 14 = (65625000, 3203636).
+Proof. repeat split; vm_compute; reflexivity. Qed.
